@@ -31,9 +31,9 @@ change was written against; "also" lists other properties whose checks report it
 kernel and the schedulers are shared mechanisms; C08 is the umbrella over all elements). Produced with
 `tools/seedtest.py --dir /verif/seeded --all-props` on scratch worktrees (never on `/repo`) and
 `tools/matrix_section.py`. `r2-` ids are round 2. This table: %d seeds at /repo %s (all patches re-created on the
-repaired tree after each batch of `fix:` commits and re-validated there; two seeds were dropped as obsolete because a
-repair removed the very construct they broke: r2-C13-m1 after e924495, r2-C09-m3 after d7f640f; `r3-`, `r4-`, `r5-` ids are rounds 3, 4 and 5); %d caught by the
-check of their own property, %d not. The 320 stored refactorings (`tools/refactest.py`): 318 silent, two recorded limitations (G08-u2, G09-v3; section 0.7).
+repaired tree after each batch of `fix:` commits and re-validated there; three seeds were dropped as obsolete because a
+repair removed the very construct they broke: r2-C13-m1 after e924495, r2-C09-m3 after d7f640f, r2-C17-m3 (`cwnd = min(cwnd, ssthresh)` in `dupack_over`, which differed only after a timeout inside fast recovery) after b6787d2; `r3-` .. `r6-` ids are rounds 3 to 6); %d caught by the
+check of their own property, %d not. The 380 stored refactorings (`tools/refactest.py`): 378 silent, two recorded limitations (G08-u2, G09-v3; section 0.7).
 
 | seed | breaks | own check | also flagged by | files | change |
 |---|---|---|---|---|---|
